@@ -3,7 +3,7 @@ _TYPES = '{"ollama", "vllm", "vllm-mlx", "sglang", "lm-studio", "llamacpp", "lem
 
 
 def _pg(ep, prefixes, types, **kw):
-    p = {"EP": ep, "Prefixes": prefixes, "Types": types, "Focus": "FALSE", "Strats": '{"plain"}', "DropFocus": "FALSE"}
+    p = {"EP": ep, "Prefixes": prefixes, "Types": types, "Focus": "FALSE", "Strats": '{"plain"}', "DropFocus": "FALSE", "FlipFocus": "FALSE"}
     p.update(kw)
     return {"module": "Provider", "cfg": "Provider_gen.cfg", "params": p}
 
@@ -26,12 +26,17 @@ _LENIENT = dict(_pg('{"e1", "e2"}', '{"ollama", "vllm", "openai"}', '{"ollama", 
 _DROP = dict(_pg('{"e1", "e2"}', '{"ollama", "vllm", "openai"}', '{"ollama", "vllm"}', DropFocus="TRUE"), always=True)
 
 
+# discovery strategy, fallback "all", refresh on miss; three endpoints, all healthy, and one of them turns unhealthy
+# WHILE olla re-lists the backends for that request: the re-read healthy set must not widen the request
+_FLIP = dict(_pg('{"e1", "e2", "e3"}', '{"ollama", "vllm"}', '{"ollama", "vllm"}', Strats='{"disc_all"}', FlipFocus="TRUE"), always=True)
+
+
 def register(PROPS, HARNESS_PKGS):
     part = {
         "name": "provider",
         "mc": [{"module": "Provider", "cfg": "Provider_mc.cfg"}],
-        "quick": {"gen": [_pg('{"e1", "e2"}', _PREFIXES, _TYPES), _PAIRS, _FOCUS, _LENIENT, _DROP], "sample": 400},
-        "thorough": {"gen": [_pg('{"e1", "e2", "e3"}', _PREFIXES, _TYPES), _PAIRS, _FOCUS, _LENIENT, _DROP,
+        "quick": {"gen": [_pg('{"e1", "e2"}', _PREFIXES, _TYPES), _PAIRS, _FOCUS, _LENIENT, _DROP, _FLIP], "sample": 400},
+        "thorough": {"gen": [_pg('{"e1", "e2", "e3"}', _PREFIXES, _TYPES), _PAIRS, _FOCUS, _LENIENT, _DROP, _FLIP,
                              _pg('{"e1", "e2", "e3"}', _PREFIXES, _TYPES, Focus="TRUE")], "sample": 5000},
         "pkg": "internal/app", "test": "TestVerif_Provider",
         "harness_files": ["stack_test.go", "dispatch_test.go", "routing_test.go", "provider_test.go"],
